@@ -214,7 +214,9 @@ fn do_read(rep: &mut Report, a: u64, n: u16, b: usize, src: &str) {
                 json!({"op": "read", "address": a.to_string(), "len": n, "budget": b.to_string()}));
         }
     } else {
-        rep.count("read:address-space-wrap(no oracle)");
+        // outside the statement (the callers refuse such ranges): observed, never compared
+        rep.count("read:address-space-wrap(outside the property: not compared)");
+        return;
     }
     let d = digest_read(&r);
     if rep.evaluations % 9973 == 1 {
@@ -242,7 +244,8 @@ fn do_write(rep: &mut Report, a: u64, data: &[u8], pat: Option<(usize, u64)>, b:
                 json!({"op": "write", "address": a.to_string(), "data": hex(data), "budget": b.to_string()}));
         }
     } else {
-        rep.count("write:address-space-wrap(no oracle)");
+        rep.count("write:address-space-wrap(outside the property: not compared)");
+        return;
     }
     let d = digest_write(&r);
     let req = match pat {
@@ -362,6 +365,21 @@ fn main() {
     }
     for b in [65535usize, 65535 + 11, 65535 + 12, 65535 + 13, 70000, (1 << 32) - 1, 1 << 32, (1 << 32) + 13, usize::MAX - 1, usize::MAX] {
         do_maxread(&mut rep, b);
+    }
+    for room in [1usize, 2, 3, 12, 100, 244, 1000] {
+        for k in [1usize, 2, 3, 7] {
+            let n = room * k;
+            if n > 65535 {
+                continue;
+            }
+            for slack in [0u64, 1] {
+                let a = (u64::MAX - n as u64 + 1).wrapping_sub(slack);
+                do_read(&mut rep, a, n as u16, 12 + room, "ends-at-top");
+                if n + 8 <= 65535 {
+                    do_write(&mut rep, a, &pattern(n, (k % 5) as u64), Some((n, (k % 5) as u64)), 20 + room, "ends-at-top");
+                }
+            }
+        }
     }
     let budgets: Vec<usize> = vec![
         0, 1, 11, 12, 13, 14, 19, 20, 21, 22, 23, 24, 64, 255, 256, 257, 512, 1024, 4095, 4096, 65535 + 11,
